@@ -337,8 +337,9 @@ func pick(candidates []string) string {
 }
 
 // classifyAccepted attributes a failure of kind k on an accepted document to a recorded
-// finding ("" when none explains it). diff is the shape difference text for kShape/kDiffer.
-func classifyAccepted(d *ast.Document, k string, diff string) string {
+// finding ("" when none explains it). diff is the shape difference text for kShape/kDiffer,
+// print the printed text that failed to parse (kReparse).
+func classifyAccepted(d *ast.Document, k string, diff string, print string) string {
 	var c []string
 	add := func(cond bool, id string) {
 		if cond {
@@ -353,6 +354,10 @@ func classifyAccepted(d *ast.Document, k string, diff string) string {
 		add(queryKeywordNeededInDoc(d), fQueryKeyword)
 		add(blockBackslashInDoc(d), fBlockBackslash)
 		add(inputValueNameNotAName(d), fInputValueName)
+		// the print itself is a (valid) document of the class the parser rejects: a definition
+		// ending with its implements list, directly followed by the next definition (the input
+		// had something in between that the printer legitimately or otherwise left out)
+		add(k == kReparse && print != "" && implementsWithoutBodyInDoc(d) && identAfterInterfaceList([]byte(print)), fImplementsIdent)
 	case kShape, kDiffer:
 		inBlock := strings.Contains(diff, "blockstring") || strings.Contains(diff, "desc")
 		add(nulInString(d), fNulInString)
@@ -390,6 +395,33 @@ func classifyRejected(src string, feat map[string]bool) string {
 		c = append(c, fBlockQuotes)
 	}
 	return pick(c)
+}
+
+// implementsWithoutBodyInDoc: a type or interface definition with an implements list and
+// neither directives nor fields, that is not the last root node.
+func implementsWithoutBodyInDoc(d *ast.Document) bool {
+	for i, rn := range d.RootNodes {
+		if i == len(d.RootNodes)-1 {
+			break
+		}
+		switch rn.Kind {
+		case ast.NodeKindObjectTypeDefinition:
+			if rn.Ref >= 0 && rn.Ref < len(d.ObjectTypeDefinitions) {
+				o := d.ObjectTypeDefinitions[rn.Ref]
+				if len(o.ImplementsInterfaces.Refs) > 0 && len(o.Directives.Refs) == 0 && len(o.FieldsDefinition.Refs) == 0 {
+					return true
+				}
+			}
+		case ast.NodeKindInterfaceTypeDefinition:
+			if rn.Ref >= 0 && rn.Ref < len(d.InterfaceTypeDefinitions) {
+				o := d.InterfaceTypeDefinitions[rn.Ref]
+				if len(o.ImplementsInterfaces.Refs) > 0 && len(o.Directives.Refs) == 0 && len(o.FieldsDefinition.Refs) == 0 {
+					return true
+				}
+			}
+		}
+	}
+	return false
 }
 
 // identAfterInterfaceList: the token stream has `implements [&] Name (& Name)*` directly
